@@ -17,10 +17,13 @@ Families
 Workload classes.  `expect=independent` classes are schedule-independent on the pinned tree and are scored
 strictly: distinct pandas schema objects; one shared pandas schema whose per-call component override is a
 no-op (no component-level coerce, no regex column); a shared not-yet-compiled DataFrameModel.  The other
-classes contain the trigger of a recorded defect (shared pandas schema with component coerce; any call that
-writes the module-global context config: polars validate or user config_context); there a discrepancy is
-attributed to the recorded defect only when the outcome is *explained* by it (see _explain), everything else
-is reported.
+classes contain the trigger of a recorded defect (shared pandas schema with component coerce or a regex
+column; any call that writes the module-global context config: polars validate or user config_context);
+there a discrepancy is attributed to the recorded defect only when the outcome is *explained* by it (see
+_explain: the same call, run ALONE, gives the observed outcome once the recorded mechanism is applied - depth
+forced, coerce switched off, component renamed - and the scheduler saw the thread resume with that piece of
+shared state changed), and a stale override left behind counts only after two preemptions inside the window.
+Everything else is reported.  Regex columns appear only in one fixed thorough-tier workload.
 """
 from __future__ import annotations
 
@@ -45,7 +48,10 @@ RULE = (
     "'double' is a grid of two-preemption schedules; 'multi' draws workloads and 2..6-segment schedules with "
     "Hypothesis. Non-trivial: >=1 preemption takes place while the preempted thread is inside a window "
     "(pandas run_schema_component_checks / validate_column, or an open config_context) as observed by the "
-    "trace function, and the execution is conclusive. Distinct = hash of the canonical JSON case."
+    "trace function, and the execution is conclusive. Distinct = hash of the canonical JSON case. Classes "
+    "labelled expect=independent (distinct pandas schemas; shared pandas schema with no component coerce/regex; "
+    "shared cold DataFrameModel) carry no known-finding trigger and are scored strictly; generated cfg-class "
+    "calls carry at most one injected fault and never an uncoercible value on a coerced polars column."
 )
 ASSUMPTIONS = [
     "preemption granularity is a pandera call/return boundary (the property's quantifier), not a bytecode; "
@@ -448,8 +454,8 @@ def fixed_workloads():
         _schema("pd", [_col("a", checks=gt0), _col("b", "str", required=False)], coerce=True, strict="filter",
                 index={"dt": "int64", "coerce": False, "checks": [["ge", 0]]}),
     ], [
-        _call(0, "pd", {"a": ["1", "2"], "zz": [1, 2]}, index=[0, 1]),
-        _call(0, "pd", {"a": [5, 6], "b": ["x", "y"]}, index=[3, -4], lazy=True),
+        _call(0, "pd", {"a": ["1", "2"], "zz": [1, 2]}, index=[0, 1], lazy=True),
+        _call(0, "pd", {"a": [5, 6], "b": ["x", "y"]}, index=[3, -4]),
     ]))
     # ---- classes that contain the trigger of a recorded defect
     W.append(_wl("pd-shared-override/column-coerce", [_schema("pd", [_col("a", coerce=True)])], [
@@ -470,6 +476,13 @@ def fixed_workloads():
         _call(1, "pd", {"a": [-1, 2]}),
     ]))
     # ---- thorough tier additions
+    W.append(_wl("pd-shared-noop/schema-coerce+index+filter/lazyfail", [
+        _schema("pd", [_col("a", checks=gt0), _col("b", "str", required=False)], coerce=True, strict="filter",
+                index={"dt": "int64", "coerce": False, "checks": [["ge", 0]]}),
+    ], [
+        _call(0, "pd", {"a": ["1", "2"], "zz": [1, 2]}, index=[0, 1]),
+        _call(0, "pd", {"a": [5, -6], "b": ["x", "y"]}, index=[3, -4], lazy=True),
+    ]))
     W.append(_wl("pd-shared-noop/model-cold", [
         dict(_schema("pd", [_col("a", checks=gt0), _col("b", "str", checks=[["isin", ["x", "y"]]])], strict=True), model=True),
     ], [
@@ -683,14 +696,20 @@ def _gen_workload(draw):
 
 
 def strat_multi():
-    # run lengths: most windows of a call lie between yield point ~60 and ~450; short runs keep a thread inside
-    seg = st.tuples(st.integers(0, 2), st.one_of(st.integers(1, 30), st.integers(60, 450), st.integers(1, 900))).map(list)
+    # every segment switches to ANOTHER thread (offset d); run lengths: short runs keep a thread inside a window,
+    # medium ones reach the windows of a call (they lie between yield point ~60 and ~450)
+    seg = st.tuples(st.integers(1, 2), st.one_of(st.integers(1, 30), st.integers(30, 260), st.integers(1, 600)))
 
-    def fix(w, segs):
+    def fix(w, first, segs):
         n = len(w["calls"])
-        return {"workload": w, "schedule": [[t % n, k] for t, k in segs]}
+        t = first % n
+        out = []
+        for d, k in segs:
+            out.append([t, k])
+            t = (t + 1 + (d - 1) % (n - 1)) % n if n > 1 else t
+        return {"workload": w, "schedule": out}
 
-    return st.builds(fix, _gen_workload(), st.lists(seg, min_size=2, max_size=6))
+    return st.builds(fix, _gen_workload(), st.integers(0, 2), st.lists(seg, min_size=2, max_size=6))
 
 
 FAMILIES = [
